@@ -1,5 +1,6 @@
 import Spine.DispatchData
 import Spine.DispatchHdr
+import Spine.DispatchTreeThm
 /-!
 # C01 — every inbound request gets exactly the one correctly addressed response
 
@@ -24,8 +25,17 @@ for ALL datagrams (`c01_exact_all`), for the member as written under `wf`. `c01_
 header family `Spine.Hdr.pre` on the shared part.
 Device part: the source of a response carries the local device address, except the unknown-destination error, which
 echoes the destination's device part as sent (`c01_source_device`).
-Not modelled (monitored by `TestDispatch` only): the device part of the *destination* of a response; node-management
-payloads beyond: empty payloads, the number of the caller's entries in subscription / binding data replies.
+Node management (second deepening round): what it reports for detailed discovery / use cases / destination list is an
+abstract value too (`W.nmData`: the identity of the last LOCAL operation of the application that changed the local
+tree / the use-case list — `Spine/DispatchTree.lean`: feature added to an existing entity, function announced on an
+existing feature, description changed, use case added / removed, entity added / removed); a read is answered with
+exactly one reply carrying the CURRENT value (`c01_nm_reply_current`), over every history that interleaves datagrams,
+registry traffic and local operations the value of the LAST local operation that changed it (`c01_nm_reply_last_change`),
+nothing else changes it (`c01_nm_frame`), and exactness holds in the world of every moment of such a history
+(`c01_history_with_local_changes`). The concrete CONTENT behind a value id is the harness's side: TestDispatch computes
+it from the primitives of the public API at the moment of the local operation and compares the reply with it.
+Not modelled (monitored by `TestDispatch` only): the device part of the *destination* of a response; the entries of
+subscription / binding data replies beyond their number (compared with the public registry and the SPEC registry).
 -/
 namespace Spine.Props.C01
 open Spine.Disp
@@ -162,6 +172,64 @@ example :
       .dg 2 { exDg .write ([1], 1) true 5 with val := 99 }]
     (processCmd (run exW ops) 2 (exDg .read ([1], 1) false 5)).2 = [(2, .reply (some 40) 5 ([1], 1) ([1], 1) 22 (some 0))] ∧
     dtrace exW ops = [some (([1], 1), 5, 11), some (([1], 1), 5, 22), none] := by decide
+
+/-! ### node management reports the CURRENT local device -/
+
+/-- Current data of the special feature, per step, every member, every world: a read of detailed discovery data (901),
+    use-case data (902) or the destination list (903) at node management is answered with exactly one reply, and it
+    carries the value node management's data has at that moment. -/
+theorem c01_nm_reply_current (w : W) (p : Nat) (d : Dg) (lf : LF) (rf : RF) (hsrc : srcF w p d = some rf)
+    (hdst : dstF w d = some lf) (hr : d.cls = .read) (hnm : lf.nm = true)
+    (hfn : d.fn = 901 ∨ d.fn = 902 ∨ d.fn = 903) (hnc : NoCrash w d) :
+    (processCmd w p d).2 = [(p, .reply d.ctr d.fn d.dst d.src (w.nmData d.fn) (some 0))] :=
+  Spine.Disp.c01_nm_reply_current w p d lf rf hsrc hdst hr hnm hfn hnc
+
+/-- Frame: one operation — remote, registry or local — changes node management's data exactly as `nmSets` says: a
+    local tree operation sets 901, a use-case operation 902 (a removal while no use-case data exists: nothing), the
+    removal of an entity both; every datagram, call, notification, disconnect, connect and data set changes nothing. -/
+theorem c01_nm_frame (w : W) (op : TOp) : (tstep w op).1.nmData = applyNm w.nmData (nmSets w op) :=
+  Spine.Disp.nmData_tstep w op
+
+/-- Current data over histories with local changes: after ANY history that interleaves datagrams, registry calls,
+    discovery notifications, disconnects, connects with local tree / use-case / entity operations of the application,
+    the reply to a read of node management's data — by any connected peer, the one that read before or another one —
+    carries the value of the LAST local operation that changed it (the initial value if none did): no stale copy. -/
+theorem c01_nm_reply_last_change (w0 : W) (ops : List TOp) (p : Nat) (d : Dg) (lf : LF) (rf : RF)
+    (hsrc : srcF (trun w0 ops) p d = some rf) (hdst : dstF (trun w0 ops) d = some lf) (hr : d.cls = .read)
+    (hnm : lf.nm = true) (hfn : d.fn = 901 ∨ d.fn = 902 ∨ d.fn = 903) (hnc : NoCrash w0 d) :
+    (processCmd (trun w0 ops) p d).2 =
+      [(p, .reply d.ctr d.fn d.dst d.src (lastNm d.fn (w0.nmData d.fn) (nmTrace w0 ops)) (some 0))] := by
+  rw [← nmData_trun]
+  exact Spine.Disp.c01_nm_reply_current _ p d lf rf hsrc hdst hr hnm hfn (by intro h; rw [cfg_trun] at h; exact hnc h)
+
+/-- Exactness over histories WITH local changes (the local feature table is no longer constant): after any such
+    history the next datagram is answered exactly as the rule table prescribes in the world of that moment — also a
+    datagram to a feature the application has just added, a write of a function it has just announced. -/
+theorem c01_history_with_local_changes (w0 : W) (ops : List TOp) (p : Nat) (d : Dg) (hwf : NoCrash w0 d)
+    (hNM : nmReadOnly w0) (hx : w0.cfg.resultOnResult = true → ¬ resultToUnknown (trun w0 ops) d) :
+    (processCmd (trun w0 ops) p d).2.filterMap kindOf = (expected (trun w0 ops) p d).map fun r => (p, r) := by
+  apply Spine.Disp.c01_exact_partial _ p d (by intro h; rw [cfg_trun] at h; exact hwf h) (nmReadOnly_trun ops w0 hNM)
+  rw [cfg_trun]; exact hx
+
+/-- non-vacuity: peer 1 reads the discovery data (value 0, the initial tree), the application announces function 7
+    writable on the existing feature [1]/1 (value 61) and adds a feature [1]/4 (value 62), a use case (value 63); peer 2
+    reads 901 and gets 62, 902 and gets 63; the write of function 7 by the bound peer, refused before, is accepted now;
+    a read addressed to the new feature is answered; subscribers of node management are notified of the use case -/
+def exNewF : LF := { ent := [1], feat := 4, typ := 2, role := .server, fds := [8], ops := [] }
+def exTreeW : W := { exW with subs := [(nmAddr, 2, ([0], 0))] }
+def exTreeOps : List TOp :=
+  [.op (.dg 1 (exDg .read ([0], 0) false 901)), .addFn ([1], 1) 7 true 61, .addFeat exNewF 62, .addUc 63,
+   .op (.setData ([1], 1) 5 11)]
+example :
+    (processCmd (trun exTreeW exTreeOps) 2 (exDg .read ([0], 0) false 901)).2 = [(2, .reply (some 40) 901 ([0], 0) ([1], 1) 62 (some 0))] ∧
+    (processCmd (trun exTreeW exTreeOps) 2 (exDg .read ([0], 0) false 902)).2 = [(2, .reply (some 40) 902 ([0], 0) ([1], 1) 63 (some 0))] ∧
+    (processCmd exTreeW 1 (exDg .read ([0], 0) false 901)).2 = [(1, .reply (some 40) 901 ([0], 0) ([1], 1) 0 (some 0))] ∧
+    nmTrace exTreeW exTreeOps = [(901, 61), (901, 62), (902, 63)] ∧
+    (tstep exTreeW (.addUc 63)).2 = [(2, .notify 902 ([0], 0) ([0], 0) 0)] ∧
+    (tstep exTreeW (.remUc 64)).2 = [] ∧
+    expected exTreeW 1 (exDg .write ([1], 1) true 7) = [.error] ∧
+    expected (trun exTreeW exTreeOps) 1 (exDg .read ([1], 4) false 8) = [.reply 8 0] ∧
+    expected exTreeW 1 (exDg .read ([1], 4) false 8) = [.error] := by decide
 
 /-! ### device part of the response source -/
 
